@@ -345,3 +345,330 @@ func c17ErrCmp(rc *RuleCtx) {
 	}
 	_ = strings.Join
 }
+
+func init() {
+	register(&Rule{ID: "C05.rootpair", Floor: 3, Also: []string{"C07", "C01"},
+		Text: "the path walk of MemFS returns the root directory as its own parent: a call that removes an entry from the parent result of a walk (Remove, RemoveAll, Rename) does so only after testing that the (parent, child) results of that walk are distinct objects - otherwise the root is locked twice, or re-inserted below one of its descendants (a cyclic tree)",
+		Run:  c05RootPair})
+}
+
+func c05RootPair(rc *RuleCtx) {
+	for _, f := range rc.C.srcFuncs("memfs") {
+		n := 0
+		eachCall(f, func(ci ssa.CallInstruction) {
+			fn := calleeFunc(ci)
+			if fn == nil || fn.Name() != "removeChild" {
+				return
+			}
+			recv := callRecv(ci)
+			if recv == nil {
+				return
+			}
+			pe, ok := stripToExtract(recv)
+			if !ok || pe.Index != 0 {
+				return
+			}
+			wc, isCall := pe.Tuple.(*ssa.Call)
+			if !isCall || calleeFunc(wc) == nil || calleeFunc(wc).Name() != "searchNode" {
+				return
+			}
+			var ce *ssa.Extract
+			for _, u := range referrersOf(wc) {
+				if e, isE := u.(*ssa.Extract); isE && e.Index == 1 {
+					ce = e
+				}
+			}
+			n++
+			cons := fmt.Sprintf("%s removeChild#%d on %s", funcName(f), n, prettyVal(recv, 0))
+			if ce == nil {
+				rc.bad(cons, ci.Pos(), "an entry is removed from the parent result of a walk whose child result is ignored")
+				return
+			}
+			if distinctFact(ci, objKeyOf(pe), objKeyOf(ce)) {
+				rc.good(cons, ci.Pos(), "(parent, child) of the walk tested to be distinct before the entry is removed")
+			} else {
+				rc.bad(cons, ci.Pos(), "the entry is removed without a test that the walk's parent and child results are distinct: for the path of the root directory they are the same node (Remove/RemoveAll lock it twice and never return; Rename inserts the root below its own descendant and the tree becomes cyclic)")
+			}
+		})
+	}
+}
+
+func init() {
+	register(&Rule{ID: "C05.pardir", Floor: 5, Also: []string{"C01"},
+		Text: "OrefaFS keeps directories and files in one node type: an entry is added below a node (addChild, createDir, createFile) only after that node's mode has been tested to be a directory on the path to the act, or the node is a directory created by the same call - otherwise a file acquires children and the index holds paths that no walk can reach",
+		Run:  c05ParDir})
+}
+
+func isDirFactOn(site ssa.Instruction, v ssa.Value) bool {
+	want := objKeyOf(v).s
+	for _, fa := range factsAt(site.Block()) {
+		c, truth := normCond(fa.Cond, fa.Truth)
+		call, ok := c.(*ssa.Call)
+		if !ok || !truth {
+			continue
+		}
+		fn := calleeFunc(call)
+		if fn == nil || fn.Name() != "IsDir" {
+			continue
+		}
+		args := callArgs(call)
+		var x ssa.Value
+		if r := callRecv(call); r != nil {
+			x = r
+		} else if len(args) > 0 {
+			x = args[0]
+		}
+		ld, ok := strip(x).(*ssa.UnOp)
+		if !ok || ld.Op != token.MUL {
+			continue
+		}
+		fad, ok := ld.X.(*ssa.FieldAddr)
+		if !ok || fieldName(fad.X.Type(), fad.Field) != "mode" {
+			continue
+		}
+		if fad.X == v || objKeyOf(fad.X).s == want {
+			return true
+		}
+	}
+	return false
+}
+
+func knownDir(site ssa.Instruction, v ssa.Value, depth int) bool {
+	if depth > 4 {
+		return false
+	}
+	if c, _ := resultOfCall(v); c != nil {
+		if fn := calleeFunc(c); fn != nil && fn.Name() == "createDir" {
+			return true
+		}
+	}
+	if isDirFactOn(site, v) {
+		return true
+	}
+	if phi, ok := v.(*ssa.Phi); ok {
+		for _, e := range phi.Edges {
+			if e == ssa.Value(phi) {
+				continue
+			}
+			if !knownDir(site, e, depth+1) {
+				return false
+			}
+		}
+		return true
+	}
+	for _, rv := range resolve(v) {
+		if rv == v {
+			return false
+		}
+		if !knownDir(site, rv, depth+1) {
+			return false
+		}
+	}
+	return len(resolve(v)) > 0
+}
+
+func c05ParDir(rc *RuleCtx) {
+	for _, f := range rc.C.srcFuncs("orefafs") {
+		n := 0
+		eachCall(f, func(ci ssa.CallInstruction) {
+			fn := calleeFunc(ci)
+			if fn == nil {
+				return
+			}
+			var parent ssa.Value
+			switch fn.Name() {
+			case "addChild":
+				parent = callRecv(ci)
+			case "createDir", "createFile", "createNode":
+				if a := callArgs(ci); len(a) > 0 {
+					parent = a[0]
+				}
+			default:
+				return
+			}
+			if parent == nil || recvNamed(fn) == nil || recvNamed(fn).Obj().Pkg().Path() != modPath+"/vfs/orefafs" {
+				return
+			}
+			if _, isParam := strip(parent).(*ssa.Parameter); isParam && !isEntryPoint(f) {
+				return // internal helper: the obligation is on its callers
+			}
+			n++
+			cons := fmt.Sprintf("%s %s#%d below %s", funcName(f), fn.Name(), n, prettyVal(parent, 0))
+			if knownDir(ci, parent, 0) {
+				rc.good(cons, ci.Pos(), "the node was tested to be a directory (or created as one) before the entry is added")
+			} else {
+				rc.bad(cons, ci.Pos(), "an entry is added below "+prettyVal(parent, 0)+" without a test that it is a directory: with a regular file in that position the call succeeds (Linux answers ENOTDIR) and the file acquires children")
+			}
+		})
+	}
+}
+
+func init() {
+	register(&Rule{ID: "C01.rootkey", Floor: 30, Also: []string{"C14"},
+		Text: "OrefaFS registers the root directory of a volume under the volume name (the absolute path without its trailing separator), which Abs never returns: every key of the path index is produced by absKey (Abs, then the root's separator removed), by SplitAbs / concatenation of such keys, or by ranging over the index - never by a raw Abs result, under which the root directory cannot be found (Stat, Chdir, ReadDir and WalkDir of \"/\" fail, Mkdir(\"/\") creates a second root)",
+		Run:  c01RootKey})
+}
+
+// rawAbsSource walks the definition of a string value backwards and reports a call of Abs whose result reaches it
+// without passing through absKey.
+func rawAbsSource(c *Config, v ssa.Value, depth int, seen map[ssa.Value]bool) ssa.Instruction {
+	if v == nil || depth > 14 || seen[v] {
+		return nil
+	}
+	seen[v] = true
+	switch x := v.(type) {
+	case *ssa.Call:
+		fn := calleeFunc(x)
+		if fn == nil {
+			return nil
+		}
+		switch fn.Name() {
+		case "absKey":
+			return nil
+		case "Abs":
+			return x
+		case "SplitAbs", "Split", "Dir", "Clean", "Join", "TrimSuffix", "TrimPrefix", "TrimRight":
+			for _, a := range callArgs(x) {
+				if s := rawAbsSource(c, a, depth+1, seen); s != nil {
+					return s
+				}
+			}
+			return nil
+		}
+		if sc := x.Call.StaticCallee(); sc != nil && sc.Pkg != nil && sc.Pkg.Pkg.Path() == modPath+"/vfs/orefafs" {
+			for _, r := range returnsOf(sc) {
+				for _, res := range r.Results {
+					if isStringType(res.Type()) {
+						if s := rawAbsSource(c, res, depth+1, seen); s != nil {
+							return s
+						}
+					}
+				}
+			}
+		}
+		return nil
+	case *ssa.Extract:
+		return rawAbsSource(c, x.Tuple, depth+1, seen)
+	case *ssa.BinOp:
+		if s := rawAbsSource(c, x.X, depth+1, seen); s != nil {
+			return s
+		}
+		return rawAbsSource(c, x.Y, depth+1, seen)
+	case *ssa.Slice:
+		return rawAbsSource(c, x.X, depth+1, seen)
+	case *ssa.Phi:
+		for _, e := range x.Edges {
+			if s := rawAbsSource(c, e, depth+1, seen); s != nil {
+				return s
+			}
+		}
+	case *ssa.UnOp:
+		if x.Op == token.MUL {
+			if al, ok := x.X.(*ssa.Alloc); ok {
+				for _, st := range storesTo(al) {
+					if s := rawAbsSource(c, st.Val, depth+1, seen); s != nil {
+						return s
+					}
+				}
+			}
+		}
+	case *ssa.ChangeType:
+		return rawAbsSource(c, x.X, depth+1, seen)
+	case *ssa.Convert:
+		return rawAbsSource(c, x.X, depth+1, seen)
+	case *ssa.Parameter:
+		// an unexported helper: look at what its callers pass
+		f := x.Parent()
+		if f == nil || isEntryPoint(f) {
+			return nil
+		}
+		idx := paramIdxRaw(f, x)
+		for _, g := range c.srcFuncs("orefafs") {
+			var found ssa.Instruction
+			eachCall(g, func(ci ssa.CallInstruction) {
+				if found != nil || ci.Common().StaticCallee() != f || idx >= len(ci.Common().Args) {
+					return
+				}
+				found = rawAbsSource(c, ci.Common().Args[idx], depth+1, seen)
+			})
+			if found != nil {
+				return found
+			}
+		}
+	}
+	return nil
+}
+
+func isStringType(t types.Type) bool {
+	b, ok := t.Underlying().(*types.Basic)
+	return ok && b.Info()&types.IsString != 0
+}
+
+func c01RootKey(rc *RuleCtx) {
+	ak := rc.C.method("orefafs", "OrefaFS", "absKey")
+	if ak == nil {
+		rc.anchor("orefafs.(*OrefaFS).absKey (the function that turns a caller's path into a key of the path index)")
+	} else {
+		// shape: one return is the Abs result, the other a prefix of it whose length is VolumeNameLen
+		callsAbs, slices := false, false
+		eachCall(ak, func(ci ssa.CallInstruction) {
+			if fn := calleeFunc(ci); fn != nil && fn.Name() == "Abs" {
+				callsAbs = true
+			}
+		})
+		for _, r := range returnsOf(ak) {
+			for _, rv := range resolve(r.Results[0]) {
+				if sl, ok := strip(rv).(*ssa.Slice); ok && sl.High != nil && sl.Low == nil {
+					if c, _ := resultOfCall(sl.High); c != nil && calleeFunc(c) != nil && calleeFunc(c).Name() == "VolumeNameLen" {
+						slices = true
+					}
+				}
+			}
+		}
+		cons := funcName(ak) + " shape"
+		if callsAbs && slices {
+			rc.good(cons, ak.Pos(), "Abs of the argument; a root directory is cut to its volume name")
+		} else {
+			rc.bad(cons, ak.Pos(), "absKey no longer maps the absolute path of a root directory to the volume name under which the constructor registers it")
+		}
+	}
+	isNodes := func(m ssa.Value) bool {
+		ld, ok := stripCT(m).(*ssa.UnOp)
+		if !ok || ld.Op != token.MUL {
+			return false
+		}
+		fa, ok := ld.X.(*ssa.FieldAddr)
+		return ok && fieldName(fa.X.Type(), fa.Field) == "nodes"
+	}
+	for _, f := range rc.C.srcFuncs("orefafs") {
+		if f == ak {
+			continue
+		}
+		n := 0
+		check := func(in ssa.Instruction, key ssa.Value, what string) {
+			n++
+			cons := fmt.Sprintf("%s %s#%d nodes[%s]", funcName(f), what, n, prettyVal(key, 0))
+			if src := rawAbsSource(rc.C, key, 0, map[ssa.Value]bool{}); src != nil {
+				rc.bad(cons, in.Pos(), "the key derives from the raw result of Abs at "+rc.C.pos(src.Pos())+": for the path of a root directory Abs returns the volume name followed by a separator, a key under which nothing is registered")
+			} else {
+				rc.good(cons, in.Pos(), "key produced by absKey / SplitAbs of a key / a key of the index / a volume name")
+			}
+		}
+		eachInstr(f, func(in ssa.Instruction) {
+			switch x := in.(type) {
+			case *ssa.Lookup:
+				if isNodes(x.X) {
+					check(x, x.Index, "lookup")
+				}
+			case *ssa.MapUpdate:
+				if isNodes(x.Map) {
+					check(x, x.Key, "insert")
+				}
+			case *ssa.Call:
+				if b, ok := x.Call.Value.(*ssa.Builtin); ok && b.Name() == "delete" && len(x.Call.Args) == 2 && isNodes(x.Call.Args[0]) {
+					check(x, x.Call.Args[1], "delete")
+				}
+			}
+		})
+	}
+}
